@@ -190,6 +190,9 @@ def fixed_cases():
         q = "'" if '"' in p else '"'
         body = M.if_([(M.cmp_(M.ident("f"), "==", M.lit_str(p, q)), M.ret([(M.lit_str(p + "#a", q), "1")])),
                       (M.cmp_(M.ident("f"), "in", M.tup([M.lit_str(p, q), M.lit_str("z")])), M.ret([(M.lit_str("b"), "1")])),
+                      # the payload as the ONLY member of a tuple (it stays a tuple whatever the payload contains), also nested
+                      (M.cmp_(M.ident("f"), "in", M.tup([M.lit_str(p, q)])), M.ret([(M.lit_str("one"), "1")])),
+                      (M.cmp_(M.ident("f"), "not in", M.tup([M.tup([M.lit_str(p, q)]), M.tup([M.lit_int("1"), M.lit_int("2")])])), M.ret([(M.lit_str("nested"), "1")])),
                       # ordering and substring tests, literal on either side
                       (M.cmp_(M.ident("g"), ">=", M.lit_str(p, q)), M.ret([(M.lit_str("ge"), "1")])),
                       (M.cmp_(M.lit_str(p, q), "<", M.ident("h")), M.ret([(M.lit_str("lt"), "1")])),
